@@ -491,7 +491,7 @@ fn update_stages_blocks(
             sound(gs0, global_stages@, stage, touched_block(module, b0)),
             forall|jj: int, c: int| 0 <= jj < it.index@ && #[trigger] calls_at(&b0, jj, c) ==> callee_post(module, c, visited@, global_stages@, stage),»
     {
-        «broadcast use axiom_arena_index_req, axiom_handle_key_model, axiom_mk_handle;
+        «broadcast use axiom_arena_index_req, axiom_handle_key_model, axiom_mk_handle, vstd::std_specs::btree::group_btree_axioms, vstd::std_specs::hash::group_hash_axioms, vstd::laws_cmp::group_laws_cmp, axiom_string_obeys_cmp;
         proof { lemma_bits(); }
         let ghost j = it.index@;
         let ghost v1 = visited@;
@@ -716,7 +716,7 @@ fn update_stages(
         fn_post(module, function, final(global_stages)@, stage), // [C03.fn-complete] every named global reachable from this function (directly or through any call chain) carries `stage`
     decreases unvisited(module, old(visited)@), 1nat, 0nat, // [C20.fn-measure] at most one expansion per function per entry point»
 {
-    «broadcast use axiom_arena_index_req, axiom_handle_key_model, axiom_mk_handle;
+    «broadcast use axiom_arena_index_req, axiom_handle_key_model, axiom_mk_handle, vstd::std_specs::btree::group_btree_axioms, vstd::std_specs::hash::group_hash_axioms, vstd::laws_cmp::group_laws_cmp, axiom_string_obeys_cmp;
     proof { lemma_bits(); }
     let ghost v0 = visited@;
     let ghost gs0 = global_stages@;
@@ -747,7 +747,7 @@ fn update_stages(
             forall|j: int, c: int| 0 <= j < it.index@ && #[trigger] expr_call(&exprs(function)[j], c) ==> callee_post(module, c, visited@, global_stages@, stage),
             forall|j: int, g: int| 0 <= j < it.index@ && #[trigger] expr_global(&exprs(function)[j], g) && gname(module, g) is Some ==> has(global_stages@, gname(module, g)->0, stage),»
     {
-        «broadcast use axiom_arena_index_req, axiom_handle_key_model, axiom_mk_handle;
+        «broadcast use axiom_arena_index_req, axiom_handle_key_model, axiom_mk_handle, vstd::std_specs::btree::group_btree_axioms, vstd::std_specs::hash::group_hash_axioms, vstd::laws_cmp::group_laws_cmp, axiom_string_obeys_cmp;
         proof { lemma_bits(); }
         let ghost j = it.index@;
         let ghost v1 = visited@;
@@ -879,7 +879,7 @@ pub fn global_shader_stages(module: &naga::Module) -> «(r:» BTreeMap<String, w
             forall|k: int| 0 <= k < it.seq().len() ==> *(#[trigger] it.seq()[k]) == module.entry_points@[k],
             gss_complete(module, global_stages@, it.index@ as int), bounded(global_stages@), gss_exact(module, global_stages@, it.index@ as int),»
     {
-        «broadcast use axiom_handle_key_model;
+        «broadcast use axiom_handle_key_model, vstd::std_specs::btree::group_btree_axioms, vstd::std_specs::hash::group_hash_axioms, vstd::laws_cmp::group_laws_cmp, axiom_string_obeys_cmp;
         let ghost j = it.index@ as int;
         let ghost gs1 = global_stages@;
         assert(*it.seq()[j] == module.entry_points@[j]);
